@@ -419,6 +419,7 @@ def check_after(prop, f, m, snap, opinfo, changed_child_ids):
         except Exception as e:
             return f'C06: printed text no longer parses ({type(e).__name__}: {str(e)[:120]}); text={text!r}'
         if tree.flat_structure(g) != tree.flat_structure(f):
+            if removed_glued(m, snap): return f'C06: re-parse differs (removed node was glued to the next token); text={text[:300]!r}'
             return f'C06: re-parse differs from the model; text={text[:300]!r}'
     if prop == 'C09' and opinfo[0] == 'val' and not (type(m).__name__ == 'Transaction' and opinfo[1] in ('payee', 'narration', 'string0', 'string1', 'string2')) \
             and type(m).__name__ != 'CostSpec':      # the dependent groups are checked against their record models by drivers/special.py
@@ -426,6 +427,23 @@ def check_after(prop, f, m, snap, opinfo, changed_child_ids):
         got = getattr(m, n)
         if got != v: return f'C09: {type(m).__name__}.{n} = {v!r} reads back {got!r}'
     return None
+
+
+def removed_glued(m, snap):
+    """a child of m that the operation removed was, before the operation, directly followed by a non-blank token (no spacing between them): the
+    shape of the known finding C06-removal-of-a-glued-optional-node; used only to name the failure precisely"""
+    now = {id(x) for x in tree.real_children(m)}
+    pos = {id(t): i for i, t in enumerate(snap['all'])}
+    for c, _ in snap['kids']:
+        if id(c) in now: continue
+        try: i = pos.get(id(c.last_token))
+        except Exception: continue
+        if i is None: continue
+        for t2 in snap['all'][i + 1:]:
+            if t2.raw_text: 
+                if not t2.raw_text[0].isspace(): return True
+                break
+    return False
 
 
 def repeated_props(m):
@@ -532,6 +550,8 @@ def run(prop, tier, seed):
         for c in rare: by_action.setdefault(c[1][2], []).append(c)
         picked = [c for a_ in sorted(by_action) for c in by_action[a_][:90]]
         cases = picked + rest[:4500]
+        # the inputs of the open known findings are run under every seed, so that the KNOWN-FINDING lines do not depend on the sample
+        have = set(cases); cases += [c for c in rest[4500:] if c[0] == 'glued' and c[1][2] == 'set-none' and c not in have]
     for name, op in cases:
         if not rep.mine((name, op)): continue
         try:
